@@ -169,9 +169,7 @@ theorem walk_exist_sound (c : Cfg P) (ds : List (DEnt P)) (ns : List (NEnt P)) (
     rcases List.mem_append.1 h with h | h
     · simp [existingEvs] at h
     · rcases List.mem_cons.1 h with h | h
-      · injection h with h1 h2 h3
-        subst h1
-        exact ⟨d, List.mem_cons_self, hc⟩
+      · cases h
       · obtain ⟨e, he, hq⟩ := ih h
         have : e ∈ (skipSplit c d ds).1 ++ (skipSplit c d ds).2 := List.mem_append_right _ he
         rw [skipSplit_append] at this
@@ -334,11 +332,12 @@ theorem mem_skip_cases {c : Cfg P} {d : DEnt P} {ds : List (DEnt P)} {e : DEnt P
   rw [← skipSplit_append c d ds] at h
   exact List.mem_append.1 h
 
-/-- **to-create = not (visibly) in the destination.**  With both streams sorted, a node is handed to `process_node` with
-`exists = false` only if every destination entry at its path lies below an additional directory (never visited). -/
+/-- **to-create = not usable in the destination.**  With both streams sorted, a node is handed to `process_node` with
+`exists = false` only if every destination entry at its path lies below an additional directory (never visited) or was
+itself disposed of as `additional` (type mismatch). -/
 theorem walk_tocreate_sound (c : Cfg P) (L : LawfulCmp c.cmp) (ds : List (DEnt P)) (ns : List (NEnt P))
     (hd : SortedD c ds) (hn : SortedN c ns) (p : P) (k : NKind) (h : Ev.node p k false ∈ walk c ds ns) :
-    ∀ e ∈ ds, e.path = p → Ev.skipped p ∈ walk c ds ns := by
+    ∀ e ∈ ds, e.path = p → Ev.skipped p ∈ walk c ds ns ∨ ∃ isDir r, Ev.additional p isDir r ∈ walk c ds ns := by
   fun_induction walk c ds ns with
   | case1 => cases h
   | case2 d ds ih =>
@@ -347,7 +346,6 @@ theorem walk_tocreate_sound (c : Cfg P) (L : LawfulCmp c.cmp) (ds : List (DEnt P
     · obtain ⟨n, hn', _⟩ := node_path_mem h; cases hn'
   | case3 n ns ih => intro e he; cases he
   | case4 d ds n ns hc ih =>
-    have hdl : ∀ e ∈ ds, c.cmp d.path e.path = .lt := fun e he => List.rel_of_pairwise_cons hd he
     have hnl : ∀ e ∈ ns, c.cmp n.path e.path = .lt := fun e he => List.rel_of_pairwise_cons hn he
     rcases List.mem_append.1 h with h | h
     · simp [existingEvs] at h
@@ -361,25 +359,36 @@ theorem walk_tocreate_sound (c : Cfg P) (L : LawfulCmp c.cmp) (ds : List (DEnt P
       rcases List.mem_cons.1 he with h2 | h2
       · subst h2; exact absurd hep (L.lt_ne hlt)
       · rcases mem_skip_cases (c := c) (d := d) h2 with h3 | h3
-        · rw [← hep]; exact List.mem_append_left _ (skipped_mem_existingEvs h3)
-        · exact List.mem_append_right _ (ih (sortedD_skip (List.Pairwise.of_cons hd)) hn h e h3 hep)
+        · rw [← hep]; exact Or.inl (List.mem_append_left _ (skipped_mem_existingEvs h3))
+        · rcases ih (sortedD_skip (List.Pairwise.of_cons hd)) hn h e h3 hep with h4 | ⟨i, r, h4⟩
+          · exact Or.inl (List.mem_append_right _ h4)
+          · exact Or.inr ⟨i, r, List.mem_append_right _ h4⟩
   | case5 d ds n ns hc hm ih =>
-    have hdl : ∀ e ∈ ds, c.cmp d.path e.path = .lt := fun e he => List.rel_of_pairwise_cons hd he
     have hnl : ∀ e ∈ ns, c.cmp n.path e.path = .lt := fun e he => List.rel_of_pairwise_cons hn he
+    have hdl : ∀ e ∈ ds, c.cmp d.path e.path = .lt := fun e he => List.rel_of_pairwise_cons hd he
     have hpe := (L.eq_iff _ _).1 hc
     rcases List.mem_append.1 h with h | h
     · simp [existingEvs] at h
     · rcases List.mem_cons.1 h with h | h
-      · cases h
+      · -- the node of the `Equal` arm itself: its counterpart `d` was disposed of as additional
+        injection h with h1 h2 h3
+        subst h1
+        intro e he hep
+        rcases List.mem_cons.1 he with h2 | h2
+        · refine Or.inr ⟨decide (d.kind = .dir), (c.delete && !c.dryRun), List.mem_append_left _ ?_⟩
+          rw [← hpe]
+          exact List.mem_cons_self
+        · exact absurd (hep.trans hpe.symm).symm (L.lt_ne (hdl _ h2))
       · obtain ⟨n', hn', hnp⟩ := node_path_mem h
         have hlt : c.cmp d.path p = .lt := by rw [← hnp, hpe]; exact hnl _ hn'
         intro e he hep
         rcases List.mem_cons.1 he with h2 | h2
         · subst h2; exact absurd hep (L.lt_ne hlt)
         · rcases mem_skip_cases (c := c) (d := d) h2 with h3 | h3
-          · rw [← hep]; exact List.mem_append_left _ (skipped_mem_existingEvs h3)
-          · exact List.mem_append_right _ (List.mem_cons_of_mem _
-              (ih (sortedD_skip (List.Pairwise.of_cons hd)) (List.Pairwise.of_cons hn) h e h3 hep))
+          · rw [← hep]; exact Or.inl (List.mem_append_left _ (skipped_mem_existingEvs h3))
+          · rcases ih (sortedD_skip (List.Pairwise.of_cons hd)) (List.Pairwise.of_cons hn) h e h3 hep with h4 | ⟨i, r, h4⟩
+            · exact Or.inl (List.mem_append_right _ (List.mem_cons_of_mem _ h4))
+            · exact Or.inr ⟨i, r, List.mem_append_right _ (List.mem_cons_of_mem _ h4)⟩
   | case6 d ds n ns hc hm ih =>
     have hnl : ∀ e ∈ ns, c.cmp n.path e.path = .lt := fun e he => List.rel_of_pairwise_cons hn he
     have hpe := (L.eq_iff _ _).1 hc
@@ -392,11 +401,11 @@ theorem walk_tocreate_sound (c : Cfg P) (L : LawfulCmp c.cmp) (ds : List (DEnt P
         intro e he hep
         rcases List.mem_cons.1 he with h2 | h2
         · subst h2; exact absurd hep (L.lt_ne hlt)
-        · exact List.mem_cons_of_mem _ (List.mem_cons_of_mem _
-            (ih (List.Pairwise.of_cons hd) (List.Pairwise.of_cons hn) h e h2 hep))
+        · rcases ih (List.Pairwise.of_cons hd) (List.Pairwise.of_cons hn) h e h2 hep with h4 | ⟨i, r, h4⟩
+          · exact Or.inl (List.mem_cons_of_mem _ (List.mem_cons_of_mem _ h4))
+          · exact Or.inr ⟨i, r, List.mem_cons_of_mem _ (List.mem_cons_of_mem _ h4)⟩
   | case7 d ds n ns hc ih =>
     have hdl : ∀ e ∈ ds, c.cmp d.path e.path = .lt := fun e he => List.rel_of_pairwise_cons hd he
-    have hnl : ∀ e ∈ ns, c.cmp n.path e.path = .lt := fun e he => List.rel_of_pairwise_cons hn he
     have hnd : c.cmp n.path d.path = .lt := (L.gt_iff _ _).1 hc
     have hall : ∀ e ∈ d :: ds, c.cmp n.path e.path = .lt := by
       intro e he
@@ -409,7 +418,9 @@ theorem walk_tocreate_sound (c : Cfg P) (L : LawfulCmp c.cmp) (ds : List (DEnt P
       intro e he hep
       exact absurd hep.symm (L.lt_ne (hall e he))
     · intro e he hep
-      exact List.mem_cons_of_mem _ (ih hd (List.Pairwise.of_cons hn) h e he hep)
+      rcases ih hd (List.Pairwise.of_cons hn) h e he hep with h4 | ⟨i, r, h4⟩
+      · exact Or.inl (List.mem_cons_of_mem _ h4)
+      · exact Or.inr ⟨i, r, List.mem_cons_of_mem _ h4⟩
 
 /-- a destination entry is consumed as `matched` only for a node with an equal path and a compatible type -/
 theorem walk_matched_sound (c : Cfg P) (ds : List (DEnt P)) (ns : List (NEnt P)) (p : P)
@@ -451,5 +462,145 @@ theorem walk_matched_sound (c : Cfg P) (ds : List (DEnt P)) (ns : List (NEnt P))
     · cases h
     · obtain ⟨e, he, n', hn', hq⟩ := ih h
       exact ⟨e, he, n', List.mem_cons_of_mem _ hn', hq⟩
+
+/-! ### RestorePlan: the warm-up list covers the pack reads -/
+
+theorem mem_dedup (a : Nat) (l : List Nat) : a ∈ dedup l ↔ a ∈ l := by
+  fun_induction dedup l with
+  | case1 => simp
+  | case2 x => simp
+  | case3 x l ih => rw [ih]; simp
+  | case4 x y l h ih => rw [List.mem_cons, ih]; simp
+
+theorem packInfoOf_fromFile_none (e : REntry) : (packInfoOf e).fromFile = none ↔ needsPack e = true := by
+  simp [packInfoOf, needsPack, List.find?_eq_none, List.all_eq_true]
+
+/-- a coalesced group carries the pack id and the `from_file` of its first member -/
+theorem coalesceFrom_origin (hole limit : Nat) (cur : PackInfo) (l : List PackInfo) :
+    ∀ pi ∈ coalesceFrom hole limit cur l, ∃ q ∈ cur :: l, q.pack = pi.pack ∧ q.fromFile = pi.fromFile := by
+  induction l generalizing cur with
+  | nil => intro pi h; simp [coalesceFrom] at h; exact ⟨cur, List.mem_cons_self, by rw [h], by rw [h]⟩
+  | cons o l ih =>
+    intro pi h
+    simp only [coalesceFrom] at h
+    split at h
+    · obtain ⟨q, hq, h1, h2⟩ := ih (merge cur o) pi h
+      rcases List.mem_cons.1 hq with hq | hq
+      · subst hq; exact ⟨cur, List.mem_cons_self, h1, h2⟩
+      · exact ⟨q, List.mem_cons_of_mem _ (List.mem_cons_of_mem _ hq), h1, h2⟩
+    · rcases List.mem_cons.1 h with h | h
+      · exact ⟨cur, List.mem_cons_self, by rw [h], by rw [h]⟩
+      · obtain ⟨q, hq, h1, h2⟩ := ih o pi h
+        exact ⟨q, List.mem_cons_of_mem _ hq, h1, h2⟩
+
+theorem coalesceAll_origin (hole limit : Nat) (l : List PackInfo) :
+    ∀ pi ∈ coalesceAll hole limit l, ∃ q ∈ l, q.pack = pi.pack ∧ q.fromFile = pi.fromFile := by
+  cases l with
+  | nil => intro pi h; cases h
+  | cons o l => exact coalesceFrom_origin hole limit o l
+
+theorem mem_packReads {hole limit : Nat} {r : RInfo} {p : Nat} (h : p ∈ packReads hole limit r) :
+    ∃ pi ∈ packInfos hole limit r, pi.pack = p ∧ pi.fromFile = none := by
+  simp only [packReads, readsOf, List.mem_filterMap] at h
+  obtain ⟨rd, ⟨pi, hpi, hrd⟩, hp⟩ := h
+  refine ⟨pi, hpi, ?_⟩
+  unfold readOf at hrd
+  split at hrd
+  · cases hrd
+  · split at hrd
+    · injection hrd with hrd; subst hrd; cases hp
+    · rename_i hn
+      injection hrd with hrd; subst hrd
+      injection hp with hp
+      exact ⟨hp, hn⟩
+
+/-- **every pack `restore_contents` reads is in `to_packs()`** — for every plan (every sequence of `add_file` calls, every
+matching pattern) and every coalescing limit -/
+theorem packReads_subset_toPacks (hole limit : Nat) (r : RInfo) : ∀ p ∈ packReads hole limit r, p ∈ toPacks r := by
+  intro p h
+  obtain ⟨pi, hpi, hp, hf⟩ := mem_packReads h
+  obtain ⟨q, hq, hq1, hq2⟩ := coalesceAll_origin hole limit _ pi hpi
+  obtain ⟨e, he, heq⟩ := List.mem_map.1 hq
+  subst heq
+  rw [hf] at hq2
+  have hneed := (packInfoOf_fromFile_none e).1 hq2
+  unfold toPacks
+  rw [mem_dedup]
+  refine List.mem_map.2 ⟨e, List.mem_filter.2 ⟨he, hneed⟩, ?_⟩
+  rw [← hp, ← hq1]; rfl
+
+/-! the converse: the warm-up list names only packs that are read -/
+
+theorem coalesceFrom_blobs_ne (hole limit : Nat) (cur : PackInfo) (l : List PackInfo)
+    (hc : cur.blobs ≠ []) (hl : ∀ q ∈ l, q.blobs ≠ []) : ∀ pi ∈ coalesceFrom hole limit cur l, pi.blobs ≠ [] := by
+  induction l generalizing cur with
+  | nil => intro pi h; simp [coalesceFrom] at h; rw [h]; exact hc
+  | cons o l ih =>
+    intro pi h
+    simp only [coalesceFrom] at h
+    split at h
+    · exact ih (merge cur o) (by simp [merge, hc]) (fun q hq => hl q (List.mem_cons_of_mem _ hq)) pi h
+    · rcases List.mem_cons.1 h with h | h
+      · rw [h]; exact hc
+      · exact ih o (hl o List.mem_cons_self) (fun q hq => hl q (List.mem_cons_of_mem _ hq)) pi h
+
+/-- every input member ends in a group of its pack; if it has no `from_file`, so has the group -/
+theorem coalesceFrom_covers (hole limit : Nat) (cur : PackInfo) (l : List PackInfo) :
+    ∀ q ∈ cur :: l, q.fromFile = none →
+      ∃ pi ∈ coalesceFrom hole limit cur l, pi.pack = q.pack ∧ pi.fromFile = none := by
+  induction l generalizing cur with
+  | nil =>
+    intro q hq hf
+    simp only [List.mem_cons, List.not_mem_nil, or_false] at hq
+    subst hq
+    exact ⟨q, by simp [coalesceFrom], rfl, hf⟩
+  | cons o l ih =>
+    intro q hq hf
+    simp only [coalesceFrom]
+    split
+    · rename_i hcc
+      have hcc' := hcc
+      simp only [canCoalesce, Bool.and_eq_true, beq_iff_eq, Option.isNone_iff_eq_none] at hcc'
+      rcases List.mem_cons.1 hq with hq | hq
+      · subst hq
+        obtain ⟨pi, hpi, h1, h2⟩ := ih (merge q o) (merge q o) List.mem_cons_self (by simp [merge, hf])
+        exact ⟨pi, hpi, h1, h2⟩
+      · rcases List.mem_cons.1 hq with hq | hq
+        · subst hq
+          obtain ⟨pi, hpi, h1, h2⟩ := ih (merge cur q) (merge cur q) List.mem_cons_self (by simp [merge, hcc'.1.2])
+          exact ⟨pi, hpi, by rw [h1]; simp [merge, hcc'.1.1], h2⟩
+        · exact ih (merge cur o) q (List.mem_cons_of_mem _ hq) hf
+    · rcases List.mem_cons.1 hq with hq | hq
+      · subst hq; exact ⟨q, List.mem_cons_self, rfl, hf⟩
+      · obtain ⟨pi, hpi, h1, h2⟩ := ih o q hq hf
+        exact ⟨pi, List.mem_cons_of_mem _ hpi, h1, h2⟩
+
+/-- **`to_packs()` names only packs that are read** -/
+theorem toPacks_subset_packReads (hole limit : Nat) (r : RInfo) : ∀ p ∈ toPacks r, p ∈ packReads hole limit r := by
+  intro p h
+  unfold toPacks at h
+  rw [mem_dedup] at h
+  obtain ⟨e, he, hp⟩ := List.mem_map.1 h
+  obtain ⟨her, hneed⟩ := List.mem_filter.1 he
+  have hf := (packInfoOf_fromFile_none e).2 hneed
+  have hmem : packInfoOf e ∈ r.map packInfoOf := List.mem_map.2 ⟨e, her, rfl⟩
+  have hall : ∀ q ∈ r.map packInfoOf, q.blobs ≠ [] := by
+    intro q hq
+    obtain ⟨e', _, rfl⟩ := List.mem_map.1 hq
+    simp [packInfoOf]
+  cases hr : r.map packInfoOf with
+  | nil => rw [hr] at hmem; cases hmem
+  | cons o l =>
+    rw [hr] at hmem hall
+    obtain ⟨pi, hpi, h1, h2⟩ := coalesceFrom_covers hole limit o l _ hmem hf
+    have hb := coalesceFrom_blobs_ne hole limit o l (hall o List.mem_cons_self)
+      (fun q hq => hall q (List.mem_cons_of_mem _ hq)) pi hpi
+    simp only [packReads, readsOf, List.mem_filterMap]
+    refine ⟨Read.pack pi.pack pi.offset pi.length, ⟨pi, ?_, ?_⟩, ?_⟩
+    · simp only [packInfos, hr, coalesceAll]; exact hpi
+    · unfold readOf
+      have : pi.blobs.isEmpty = false := by cases hbb : pi.blobs with | nil => exact absurd hbb hb | cons _ _ => rfl
+      simp [this, h2]
+    · simp only [h1]; rw [← hp]; rfl
 
 end Rustic.RestoreWalk
